@@ -146,7 +146,9 @@ def run(ctx: common.Ctx) -> None:
                             ctx.sample({"history": t["_k"], "step": st["i"], "ops": ops, "mode": st["mode"],
                                         "targets_reprocessed": ntarg, "first_line": st["out"].splitlines()[0][:140]})
                         continue
-                    key = histgen.op_class(ops) + "|" + classify_diff(st)
+                    key = classify_diff(st)
+                    if key not in ("only_once-note-placement", "while-blocked:daemon-omits-nonblocking-diagnostics"):
+                        key = histgen.op_class(ops) + "|" + key
                     ctx.violation(key, f"daemon response differs from full run at step {st['i']} (ops {ops}, mode {st['mode']})",
                                   {"task": t, "step": st["i"], "daemon": st["out"], "oracle": st["oracle"]["out"],
                                    "dstatus": st["status"], "ostatus": st["oracle"]["status"], "diffs": st.get("diffs")})
